@@ -42,17 +42,17 @@ type Stats struct {
 
 // Ctx is handed to a world for one run.
 type Ctx struct {
-	Property string
-	Tape     *Tape
-	Trace    bool
-	Lines    []string
-	h        hash.Hash64
-	Stats    Stats
-	states   map[uint64]struct{}
-	NonTriv  bool
-	known    []KnownFinding
-	Params   map[string]string // world parameters (tier, campaign)
-	Scratch  string            // scratch directory for this run (on /dev/shm)
+	Property  string
+	Tape      *Tape
+	Trace     bool
+	Lines     []string
+	h         hash.Hash64
+	Stats     Stats
+	states    map[uint64]struct{}
+	NonTriv   bool
+	known     []KnownFinding
+	Params    map[string]string // world parameters (tier, campaign)
+	Scratch   string            // scratch directory for this run (on /dev/shm)
 	unordered []string
 	PreLog    []func() // run before every ordered log line: worlds emit pending net effects through LogUnordered
 }
